@@ -1513,6 +1513,22 @@ func (pool *TxPool) demoteUnexecutables() {
 			}
 			pendingGauge.Dec(int64(len(gapped)))
 		}
+		// A gap may also open further back: after a reorg the re-injected transactions are promoted in front of the
+		// ones still pending, and some of them may have been refused. Postpone everything behind the first gap.
+		if list.Len() > 0 {
+			run := 0
+			for list.txs.Get(nonce+uint64(run)) != nil {
+				run++
+			}
+			if run < list.Len() {
+				gapped := list.Cap(run)
+				for _, tx := range gapped {
+					// Internal shuffle shouldn't touch the lookup set.
+					pool.enqueueTx(tx.Hash(), tx, false, false)
+				}
+				pendingGauge.Dec(int64(len(gapped)))
+			}
+		}
 		// Delete the entire pending entry if it became empty.
 		if list.Empty() {
 			delete(pool.pending, addr)
